@@ -12,7 +12,7 @@ import (
 
 func init() {
 	register(&Def{ID: "C10", Engine: "E1", Run: runC10,
-		Rule: "cross product: {Concat, Stack, Hstack, Vstack} x 1-4 operands x shapes of rank 1-4 x every valid axis (plus invalid axes and non-fitting shapes for the refusal space) x layout of each operand (all L5 combinations for <=3 operands) x element widths 1,2,4,8,16 bytes and strings x {function, method}; " +
+		Rule: "cross product: {Concat, Stack, Hstack, Vstack} x 1-4 operands x shapes of rank 1-4 x every valid axis (plus invalid axes and non-fitting shapes for the refusal space) x layout of each operand (all L5 combinations for <=3 operands; the same tensor given two and three times, alone and next to another operand) x element widths 1,2,4,8,16 bytes and strings x {function, method}; " +
 			"{Repeat, RepeatReuse} x layouts x every axis and AllAxes x uniform counts 0..3 and every per-element count vector over {0,1,2}; every result element compared with NumPy's definition applied to the model arrays; operands unchanged. non-trivial = the result has >= 2 elements",
 		Assume: []string{"reference definitions: numpy.concatenate / stack / hstack / vstack / repeat", "Vstack of 1-d operands is refused by the library by design (documented: needs 2 dimensions)"}})
 }
